@@ -92,7 +92,7 @@ Cases == {[c |-> "eq", kind |-> k] : k \in StructuralKinds \cup AnnotationKinds 
          \* of generator/model.py (first-use initialisation inside the model layer is then half done)
          \cup {[c |-> "interleaved", at |-> k] : k \in 1..NInter}
          \* several operations on the SAME in-memory documents in one process: Load; Load; Eq; Load(first only)
-         \cup {[c |-> "session", files |-> n] : n \in {"two", "three", "extension", "zoo_twice"}}
+         \cup {[c |-> "session", files |-> n] : n \in {"two", "three", "extension", "zoo_twice", "empty_first"}}
 Init == svCase \in Cases /\ svL = 0
 Next == UNCHANGED <<svCase, svL>>
 CaseOK(c) == c.c = "eqg" => c.key \in KeysOf(c.def)
